@@ -17,7 +17,7 @@ ASSUMPTIONS = [
     "case variants are exercised through the stream entry points (HashStreamFile, get_hash_stream, fobj_md5, file_md5)",
 ]
 MONITORS = "digest / passthrough bytes / byte count compared with hashlib on every evaluation"
-REQUIRED_COUNTERS = ["dos2unix_case_variant_checks", "midway_digest_peeks", "streams_with_transient_read_failures", "transient_read_failures_retried", "interleaved_stream_pairs", "short_read_streams", "stream_checks", "fobj_md5_checks", "hash_file_checks", "dos2unix_variant_checks", "memfs_checks"]
+REQUIRED_COUNTERS = ["long_first_line_texts", "hash_file_over_index_filesystem", "dos2unix_case_variant_checks", "midway_digest_peeks", "streams_with_transient_read_failures", "transient_read_failures_retried", "interleaved_stream_pairs", "short_read_streams", "stream_checks", "fobj_md5_checks", "hash_file_checks", "dos2unix_variant_checks", "memfs_checks"]
 
 PLAIN = ["md5", "sha1", "sha256", "sha512", "blake3", "sha224", "sha384"]
 VARIANTS = ["MD5", "Md5", "SHA256", "Sha256", "BLAKE3", "Blake3", "SHA1", "sHa512"]
@@ -151,6 +151,10 @@ def run_shard(ctx):
     for case, rng in ctx.cases(n_cases):
         def one(case=case, rng=rng):
             data = gen.content(rng, big=0.05 if ctx.tier == "quick" else 0.08)
+            if rng.random() < 0.08:
+                # text whose first line ending lies around / beyond the 512-byte sniffing window
+                data = b"L" * rng.choice([505, 509, 510, 511, 512, 513, 519, 700]) + b"\r\n" + b"second line\r\nthird\r\n" * rng.randrange(1, 5)
+                res.count("long_first_line_texts")
             is_text = _is_text_block(data[:512])
             for _rep in range(5):
                 res.evaluated()
@@ -251,6 +255,31 @@ def run_shard(ctx):
                     else:
                         os.unlink(path)
 
+            # hash_file on the read-only filesystem over an index (its info() already carries the entry's md5)
+            if rng.random() < 0.15 and len(data) <= 200000:
+                from dvc_data.fs import DataFileSystem
+                from dvc_data.hashfile.hash_info import HashInfo as _HI
+                from dvc_data.hashfile.meta import Meta as _M
+                from dvc_data.index import DataIndex as _DI, DataIndexEntry as _DE, ObjectStorage as _OS
+
+                from ..env import local_odb
+
+                res.evaluated()
+                res.count("hash_file_over_index_filesystem")
+                codb = local_odb(os.path.join(d, "dfs-cache"))
+                srcp = os.path.join(d, f"dfs-src-{case}")
+                with open(srcp, "wb") as f:
+                    f.write(data)
+                codb.add(srcp, lfs, H("md5", data))
+                os.unlink(srcp)
+                ix = _DI()
+                ix.storage_map.add_cache(_OS(key=(), odb=codb))
+                ix[("f",)] = _DE(key=("f",), meta=_M(size=len(data)), hash_info=_HI("md5", H("md5", data)))
+                dfs = DataFileSystem(index=ix)
+                for nm_ in ("md5", "md5-dos2unix", "sha256"):
+                    _mm, hh = hash_file("/f", dfs, nm_)
+                    if hh.value != H(nm_, data) or hh.name != nm_:
+                        bad("hash_file-digest/index-filesystem", f"hash_file({nm_}) over the index filesystem != reference", case, algo=nm_, len=len(data), text=is_text)
             # two hashing streams alive at the same time in one thread must not share any state
             if rng.random() < 0.3:
                 res.evaluated()
